@@ -224,6 +224,12 @@ ENTITY_NUMS = ["1", "2", "3", "9", "99", "0", "-1", "1-3", "5-7", "none", "77", 
 BASE = [(n, t) for n, t in S.BLOCKS if n not in ("include", "include_missing", "empty", "end_only", "surface_dl")]
 
 
+# shipped databases that load in < 20 ms (release build); the blocks are written for small.dat, so on these many
+# species/phases/exchangers are "unknown" - which is a class the property names.  Concrete_PHR/PZ fail to load.
+DATABASES = ["phreeqc.dat", "pitzer.dat", "ColdChem.dat", "frezchem.dat", "Amm.dat", "minimum.dat", "wateq4f.dat", "Tipping_Hurley.dat",
+             "Kinec_v3.dat", "phreeqc_rates.dat", "core10.dat", "Concrete_PHR.dat", "Concrete_PZ.dat"]
+
+
 @st.composite
 def api_case(draw):
     parts, muts, names = [], [], []
@@ -250,14 +256,18 @@ def api_case(draw):
         names.append("tail")
     text = "\n".join(parts) + ("\n" if draw(st.integers(0, 9)) else "")
     entry = draw(st.sampled_from(["run_string", "run_string", "run_string", "accumulate", "run_file"]))
-    ops = [["strings", "", str(draw(st.sampled_from([0, 1, 8, 9, 15, 6])))]]
+    ops = []
+    db = draw(st.sampled_from([None] * 7 + DATABASES))
+    if db is not None:
+        ops.append(["load_db_file", "", "@R@/database/" + db])
+    ops.append(["strings", "", str(draw(st.sampled_from([0, 1, 8, 9, 15, 6])))])
     if entry == "run_string":
         ops.append(["run_string", "", text])
     elif entry == "accumulate":
         ops += [["accumulate", "", text], ["run_accumulated", "", ""]]
     else:
         ops += [["write_file", "", "@S@/g_in.pqi\n" + text], ["run_file", "", "@S@/g_in.pqi"]]
-    return {"kind": "api", "ops": ops, "meta": {"engine": "B", "entry": entry, "blocks": names, "mutations": muts}}
+    return {"kind": "api", "ops": ops, "meta": {"engine": "B", "entry": entry, "blocks": names, "mutations": muts, "db": db or "small.dat"}}
 
 
 # ------------------------------------------------------------------------------------------------ engine C
@@ -299,6 +309,7 @@ def fault_cases():
     add("load_db_string:empty", [["load_db_string", "", ""]])
     add("load_db_string:garbage", [["load_db_string", "", "garbage\n\x01\x02\n"]])
     add("load_db_file:input_file_as_database", [["load_db_file", "", "@S@/ok_in.pqi"]])
+    add("load_db_file:shipped_database_with_errors", [["load_db_file", "", "@R@/database/Concrete_PHR.dat"]])
     # 2. output sinks that cannot be opened, per stream and entry point (the sandbox runs as root: permission
     #    faults are emulated by ENOTDIR / ENOENT / EISDIR / ENAMETOOLONG / ENOSPC paths)
     for stream in STREAMS:
